@@ -79,6 +79,37 @@ def tie(tier, seed, replay):
         jobs.append(dict(id=c["id"], text=dl.rust_program_text(dict(c["prog"], attrs=[])), attrs=c["prog"]["attrs"], macro="ascent",
                          rels=c["prog"]["rels"], scripts=[script_for(c["input"], ks) for ks in c["hist"]] + [rescript_for(c["input"], rr) for rr in c["rehist"]]))
     impl = prog.build_and_run("c14", jobs, features=("verif_hooks",))
+    # the same histories under ascent_par! (pool of 3): the deadline checks sit at the same places of the SCC loop, so every call must
+    # return the same flag and leave the same relations (as sets, rows = distinct tuples) as the serial program
+    pjobs = [dict(j, id=j["id"] + "_par", macro="ascent_par", threads=3) for k, j in enumerate(jobs) if k % 2 == 0]
+    pimpl = prog.build_and_run("c14p", pjobs, features=("verif_hooks",), run_timeout=300) if pjobs else {}
+    par_mism, npar = [], 0
+    for j in pjobs:
+        ser, par = impl.get(j["id"][:-4]), pimpl.get(j["id"])
+        for h, sc in enumerate(j["scripts"]):
+            a = ser[h] if ser else None
+            b = par[h] if par else None
+            if a is None or "snaps" not in a:
+                continue
+            cs = dict(program=j["text"], attrs=j["attrs"], macro="ascent_par", pool_threads=3, script=[list(x) if x[0] != "raw" else ("raw", x[1][:120]) for x in sc])
+            if b is None or "snaps" not in b:
+                par_mism.append(dict(case=cs, impl=b, model=None, spec="the serial program completes this history", kind="impl_violates_spec", known=None,
+                                     what="ascent_par! + generate_run_timeout: history did not complete: %s" % json.dumps(b)[:300]))
+                continue
+            npar += 1
+            for q, (sa, sb) in enumerate(zip(a["snaps"], b["snaps"])):
+                if "__ret" in sa:
+                    if sa != sb:
+                        par_mism.append(dict(case=cs, impl=sb, model=None, spec=sa, kind="impl_violates_spec", known=None,
+                                             what="ascent_par!: run_timeout call (snapshot #%d) returned %s, the serial program %s" % (q, sb["__ret"], sa["__ret"])))
+                        break
+                    continue
+                ca, cb = prog.canon_snap(sa), prog.canon_snap(sb)
+                bad = [n for n in ca if ca[n][1] != cb[n][1] or cb[n][0] != len(cb[n][1]) and ca[n][0] == len(ca[n][1])]
+                if bad:
+                    par_mism.append(dict(case=cs, impl={bad[0]: cb[bad[0]]}, model=None, spec={bad[0]: ca[bad[0]]}, kind="impl_violates_spec", known=None,
+                                         what="ascent_par! + run_timeout: relation %s at snapshot #%d differs from the serial program's state at the same point (or holds duplicate rows)" % (bad[0], q)))
+                    break
     groups, gids, invs = [], [], {}
     for c in cases:
         d = dumps.get(c["id"])
@@ -232,9 +263,9 @@ def tie(tier, seed, replay):
                                  what="correspondence Engine/Timeout.v + Engine/Rerun.v vs generated code: run(); push; run_timeout(%d) (model returned %s, implementation %s); run()" % (rr["k"], mb, ret)))
     return dict(evaluations=sum(len(c["hist"]) for c in cases) + nre + lat["evaluations"], distinct_nontrivial=len(distinct) + lat["distinct"],
                 rule="PLAIN HALF: random programs (3/4 positive, 1/4 stratified) compiled with #![generate_run_timeout] x one input x histories run_timeout(k) for k = 1..5 (8 thorough), random pairs (k1,k2), (1,1,1), each followed by run(); the hook's virtual clock makes run_timeout(k s) fire exactly at its k-th deadline check; after every interrupted call: inputs kept, every tuple derivable, true => full fixed point; after the final run(): the fixed point; "
-                     "AND (positive programs) histories on a program value that already COMPLETED a run: set A; run() [half of the time run_timeout(1000000 s) returning true]; push facts B into 1-2 relations (input or derived, the others untouched); run_timeout(k), k = 1..3, with the clock armed for that call only; run(): rows before the call kept as a prefix, every tuple derivable from A u B, final state = least model of A u B (Coq strat_fix on the union), rows = distinct tuples when the caller pushed no duplicate; model = Engine/Rerun.v push_facts + Engine/Timeout.v timeout_script from the state of the first run; distinct = (program, history).  " + lat["rule"],
+                     "AND (positive programs) histories on a program value that already COMPLETED a run: set A; run() [half of the time run_timeout(1000000 s) returning true]; push facts B into 1-2 relations (input or derived, the others untouched); run_timeout(k), k = 1..3, with the clock armed for that call only; run(): rows before the call kept as a prefix, every tuple derivable from A u B, final state = least model of A u B (Coq strat_fix on the union), rows = distinct tuples when the caller pushed no duplicate; model = Engine/Rerun.v push_facts + Engine/Timeout.v timeout_script from the state of the first run; distinct = (program, history).  PARALLEL: every second program also as ascent_par! in a pool of 3 through the same histories: same flag at every call and the same relations (sets, rows = distinct tuples) as the serial program at the same point.  " + lat["rule"],
                 samples=[dict(program=texts[c["id"]], input=c["input"], histories=c["hist"][:3]) for c in cases[:2]],
-                distribution=dict(programs=len(cases), interrupted_calls_that_returned_false=fired, histories_after_a_completed_run=nre, of_which_interrupted=refired, **lat["distribution"]), mismatches=lat["mismatches"] + mism,
+                distribution=dict(programs=len(cases), interrupted_calls_that_returned_false=fired, histories_after_a_completed_run=nre, of_which_interrupted=refired, **lat["distribution"]), mismatches=lat["mismatches"] + mism + par_mism,
                 trusted_base=["virtual clock hook (ascent/src/verif_hooks.rs, feature verif_hooks) standing in for web_time::Instant; FRONT hook; generated crates"] + lat["trusted_base"],
                 assumptions=["the real clock only decides WHICH deadline check fires; every choice is covered by the oracle in the model and enumerated up to k=5/8 in the tie"] + lat["assumptions"],
-                extra=dict(cases_skipped_model_too_slow=nskip, **lat["extra"]))
+                extra=dict(cases_skipped_model_too_slow=nskip, parallel_histories=npar, **lat["extra"]))
